@@ -12,7 +12,8 @@ import re
 import shutil
 
 WAVES = [("/tmp/seed", "seed", ""), ("/tmp/seed2", "seed2", "-2"), ("/tmp/seed3", "seed3", "-3"), ("/tmp/seed4", "seed4", "-4"),
-         ("/tmp/seed5", "seed5", "-5"), ("/tmp/seed6", "seed6", "-6")]
+         ("/tmp/seed5", "seed5", "-5"), ("/tmp/seed6", "seed6", "-6"),
+         ("/tmp/seed7", "seed7", "-7")]
 # changes that are caught by the check of another property (the other check's id)
 CAUGHT_BY = {}
 OUT = "/verif/seeded"
@@ -141,6 +142,8 @@ def main():
             res_fn = f"/tmp/confirm/{wave}_{pid}.result.json"
             if wave == "seed" and not os.path.exists(res_fn):
                 res_fn = f"/tmp/confirm/{pid}.result.json"          # first batch of wave 1 (older file name)
+            if wave == "seed7" and not os.path.exists(f"{src}/{pid}.property.txt"):
+                continue          # the seventh wave covered 21 properties only
             if not os.path.exists(res_fn) or not os.path.exists(f"{src}/{pid}.patch.diff"):
                 why = "not confirmed (no result)"
                 if (wave, pid) == ("seed", "C40"):
@@ -169,7 +172,7 @@ def main():
             if os.path.exists(f"{src}/{pid}.patch.orig.diff"):
                 shutil.copy(f"{src}/{pid}.patch.orig.diff", os.path.join(d, "patch.orig.diff"))
             out_meta = {
-                "property": pid, "wave": {"seed": 1, "seed2": 2, "seed3": 3, "seed4": 4, "seed5": 5, "seed6": 6}[wave], "caught_by_check": other or pid,
+                "property": pid, "wave": {"seed": 1, "seed2": 2, "seed3": 3, "seed4": 4, "seed5": 5, "seed6": 6, "seed7": 7}[wave], "caught_by_check": other or pid,
                 "check_on_final_head": head_line[:600],
                 "summary": meta.get("summary"), "files": meta.get("files"),
                 "needs_to_manifest": meta.get("needs_to_manifest"),
@@ -199,11 +202,11 @@ def main():
                 "Each directory holds `patch.diff` (apply with `git -C /repo apply`, undo with `git -C /repo checkout -- .`), the sub-agent's\n"
                 "demonstration `demo_test.py` (run as a plain script from the patched tree: passes without, fails with the change) and\n"
                 "`meta.json` (what it needs to manifest, what the sub-agent ran, what I ran to confirm it, which signatures the check reports,\n"
-                "and what had to be strengthened before the check caught it).  `Cxx` = first wave, `Cxx-2` = second wave, `Cxx-3` = third wave, `Cxx-4` = fourth wave, `Cxx-5` = fifth wave, `Cxx-6` = sixth wave.  None of these\n"
+                "and what had to be strengthened before the check caught it).  `Cxx` = first wave, `Cxx-2` = second wave, `Cxx-3` = third wave, `Cxx-4` = fourth wave, `Cxx-5` = fifth wave, `Cxx-6` = sixth wave, `Cxx-7` = seventh (reduced: 21 properties) wave.  None of these\n"
                 "changes is committed to `/repo`.\n\n"
                 "| seed | check | file(s) | change | signatures reported (first 3) | strengthened first |\n|---|---|---|---|---|---|\n")
         for name, pid, files, summary, sigs in rows:
-            wave = "seed6" if name.endswith("-6") else "seed5" if name.endswith("-5") else "seed4" if name.endswith("-4") else "seed3" if name.endswith("-3") else "seed2" if name.endswith("-2") else "seed"
+            wave = "seed7" if name.endswith("-7") else "seed6" if name.endswith("-6") else "seed5" if name.endswith("-5") else "seed4" if name.endswith("-4") else "seed3" if name.endswith("-3") else "seed2" if name.endswith("-2") else "seed"
             note = NOTES.get((wave, pid), "") or ("" if summary.startswith("NOT") or summary.startswith("not") else "no (caught by the first version)")
             f.write(f"| {name} | {pid} | {files} | {summary.replace('|', '/')} | {sigs.replace('|', '/')} | {note} |\n")
     kept = sum(1 for r in rows if not r[3].startswith(("NOT", "not")))
